@@ -93,5 +93,19 @@ int p_c14(void)
 		const unsigned char *iv = tu_rs28_inv(&ni); const unsigned char *mu = tu_rs28_mul(&mr, &mc);
 		check_set(8, "of_rs_gf", lg, NULL, nl, ex, ne, iv, ni, mu, mr, mc);
 	}
+	unit++;
+	/* units 3, 4: the generator is an exported function (of_rs_init, declared in of_reed-solomon_gf_2_8.h); an application
+	 * that pre-initialises the codec when the tables already exist must still get the field: generated twice and three times */
+	for (int extra = 1; extra <= 2; extra++) {
+		rep_unit(unit);
+		if (rep_unit_mine(unit)) {
+			unsigned nl, ne, ni, mr, mc;
+			for (int g = 0; g <= extra; g++) tu_rs28_init();
+			const int *lg = tu_rs28_log(&nl); const unsigned char *ex = tu_rs28_exp(&ne);
+			const unsigned char *iv = tu_rs28_inv(&ni); const unsigned char *mu = tu_rs28_mul(&mr, &mc);
+			check_set(8, extra == 1 ? "of_rs_gf_generated_twice" : "of_rs_gf_generated_3_times", lg, NULL, nl, ex, ne, iv, ni, mu, mr, mc);
+		}
+		unit++;
+	}
 	return 0;
 }
